@@ -27,28 +27,29 @@ type KV struct {
 
 // EnvRec describes an envelope on the wire (presence bits as 0/1 ints).
 type EnvRec struct {
-	Id    string `json:"id"`
-	Idn   int    `json:"idn"` // numeric id, -1 if it does not fit 31 bits
-	H     int    `json:"h"`
-	B     int    `json:"b"`
-	S     int    `json:"s"`
-	T     int    `json:"t"`
-	R     int    `json:"r"`
-	Code  int    `json:"code"`
-	Msg   string `json:"msg"`
-	Ndet  int    `json:"ndet"`
-	Pay   string `json:"pay"`
-	Md    []KV   `json:"md"`
-	Tmd   []KV   `json:"tmd"`
-	Meth  string `json:"meth"`
-	Src   string `json:"src"`
-	Dst   string `json:"dst"`
-	To    string `json:"to"`    // raw grpc-timeout header value ("" = none)
-	C     int    `json:"c"`     // call token carried in the header metadata
-	BadMd int    `json:"badmd"` // 1 if some -bin header/trailer value is not valid base64
-	Rtype string `json:"rtype"`
-	Rec   int    `json:"rec"` // length of proxy_record
-	Nxt   int    `json:"nxt"` // length of proxy_next
+	Id     string `json:"id"`
+	Idn    int    `json:"idn"` // numeric id, -1 if it does not fit 31 bits
+	H      int    `json:"h"`
+	B      int    `json:"b"`
+	S      int    `json:"s"`
+	T      int    `json:"t"`
+	R      int    `json:"r"`
+	Code   int    `json:"code"`
+	Msg    string `json:"msg"`
+	Ndet   int    `json:"ndet"`
+	Pay    string `json:"pay"`
+	Md     []KV   `json:"md"`
+	Tmd    []KV   `json:"tmd"`
+	Meth   string `json:"meth"`
+	Src    string `json:"src"`
+	Dst    string `json:"dst"`
+	To     string `json:"to"`     // raw grpc-timeout header value ("" = none)
+	C      int    `json:"c"`      // call token carried in the header metadata
+	BadMd  int    `json:"badmd"`  // 1 if some -bin header value is not valid base64
+	BadTmd int    `json:"badtmd"` // same for the trailer metadata
+	Rtype  string `json:"rtype"`
+	Rec    int    `json:"rec"` // length of proxy_record
+	Nxt    int    `json:"nxt"` // length of proxy_next
 }
 
 // Ev is one trace line. Every top-level field is always present so that the
@@ -241,7 +242,7 @@ func envEv(name string, conn int, r *goat.Rpc) Ev {
 	if r.GetTrailer() != nil {
 		x.Tmd, _, _, bad2 = kvCanon(r.GetTrailer().GetMetadata())
 	}
-	x.BadMd = bad1 | bad2
+	x.BadMd, x.BadTmd = bad1, bad2
 	h := r.GetHeader()
 	x.Meth, x.Src, x.Dst = h.GetMethod(), h.GetSource(), h.GetDestination()
 	x.Rec, x.Nxt = len(h.GetProxyRecord()), len(h.GetProxyNext())
